@@ -77,7 +77,7 @@ func TestVerifReplayC20(t *testing.T) {
 			fmt.Println("REPLAY-CONFIRMED [" + tag + "] " + strings.ReplaceAll(msg, "\n", "\\n"))
 		}
 	}
-	doc := "<html><head><title>é</title></head><body><p>日本語 &amp; text</p><script>var x = 1;</script></body></html>"
+	doc := "<html><head><title>é</title></head><body>" + strings.Repeat("<p>日本語 &amp; text that compresses well</p>", 60) + "<script>var x = 1;</script></body></html>"
 	// 1. pass-through cases: byte-identical body, same headers, same length
 	type pt struct {
 		name string
@@ -107,6 +107,7 @@ func TestVerifReplayC20(t *testing.T) {
 	}
 	// 2. rewritten responses: the length field and header describe the bytes sent, the encoding header still describes them,
 	// the decoded document has exactly one more script element, carrying the nonce when there is one
+	identityOut := map[string]string{}
 	for _, enc := range []string{"", "gzip", "br"} {
 		for _, csp := range []string{"", "default-src 'self'; script-src 'self' 'nonce-abc123'", "script-src 'nonce-n1' 'nonce-n2'; img-src *", "script-src 'nonce' nonce- 'n'"} {
 			hdr := map[string]string{"Content-Type": "text/html; charset=utf-8"}
@@ -141,6 +142,12 @@ func TestVerifReplayC20(t *testing.T) {
 			if err != nil {
 				report("rewrite", fmt.Sprintf("encoding %q: the bytes sent do not decode: %v", enc, err))
 				continue
+			}
+			// the browser must decode the same document whatever the encoding was
+			if enc == "" {
+				identityOut[csp] = out
+			} else if want, ok := identityOut[csp]; ok && out != want {
+				report("rewrite", fmt.Sprintf("encoding %q csp %q: the decoded document (%d bytes) differs from the one sent for the identity encoding (%d bytes): it ends in %q", enc, csp, len(out), len(want), out[max(0, len(out)-60):]))
 			}
 			if strings.Count(out, "<script") != strings.Count(doc, "<script")+1 || !strings.Contains(out, "/_templ/reload/script.js") {
 				report("rewrite", fmt.Sprintf("encoding %q: expected exactly one reload script to be added, got %q", enc, out))
@@ -196,6 +203,8 @@ func replayC20(r *Run, o *Obligation) *ReplayResult {
 		switch {
 		case strings.Contains(o.Name, "ensures.3"):
 			want = []string{"[unsupported-encoding]"}
+		case strings.Contains(o.Name, "ensures.5"), strings.Contains(o.Name, "ensures.4"):
+			want = []string{"[rewrite]"}
 		case strings.Contains(o.Name, "ensures.1"), strings.Contains(o.Name, "ensures.2"):
 			want = []string{"[passthrough]"}
 		}
